@@ -192,7 +192,7 @@ def main(argv=None):
     import re as _re2
 
     def _norm(oid):
-        return _re2.sub(r"[#~]\d+", "", oid)
+        return _re2.sub(r"[#~]\d+|\[rank=\d+\]", "", oid)
 
     expected = set(baseline.get(pid, []))
     got = {ob.oid for ob in obs}
